@@ -673,8 +673,33 @@ def foreign(B):
     B.obs.append(('arc', B.listing('arc.tar.xz'), B.listing('arc2')))
 
 
+def datadir(B):
+    d = B.darr
+    a = d.asarray(B.path('a'), B.arr('x', 2, (), 'int32', 'little'), accessmode='r+')
+    dd = a.datadir
+    for nm in ['README.txt', './README.txt', 'arrayvalues.bin', 'x/../arrayvalues.bin', 'notes.txt', 'sub/notes.txt',
+               'metadata.json', './/arraydescription.json', 'README.txt/']:
+        attempt(B, 'wt' + nm, lambda: dd.write_txt(nm, 'text'))
+        attempt(B, 'wt2' + nm, lambda: dd.write_txt(nm, 'text2', overwrite=True))
+        attempt(B, 'wj' + nm, lambda: dd.write_jsondict(nm, {'a': 1}, overwrite=True))
+        attempt(B, 'uj' + nm, lambda: dd.update_jsondict(nm, {'b': 2}))
+        attempt(B, 'del' + nm, lambda: dd.delete_files([nm]))
+        B.obs.append(('ls' + nm, B.listing('a')))
+    attempt(B, 'wjbad', lambda: dd.write_jsondict('j.json', [1]))
+    attempt(B, 'wj', lambda: dd.write_jsondict('j.json', {'k': (1, 2)}))
+    attempt(B, 'wjagain', lambda: dd.write_jsondict('j.json', {'k': 1}))
+    B.obs.append(('rj', dd.read_jsondict('j.json')))
+    attempt(B, 'rjreq', lambda: dd.read_jsondict('j.json', requiredkeys=['zz']))
+    attempt(B, 'wt', lambda: dd.write_txt('t.txt', 'abc'))
+    B.obs.append(('rt', dd.read_txt('t.txt')))
+    attempt(B, 'open_r', lambda: dd.open_file('README.txt', 'r').__enter__().close())
+    attempt(B, 'open_w', lambda: dd.open_file('README.txt', 'w').__enter__())
+    attempt(B, 'open_a_user', lambda: dd.open_file('t.txt', 'a').__enter__().close())
+    B.obs.append(('dump', B.dump('a')['arrayvalues.bin']))
+
+
 SCENARIOS = {f.__name__: f for f in [array_basic, array_append, array_truncate, array_assign,
-                                        array_failappend, ragged_basic, ragged_fail, readonly, metadata, baddescr, foreign]}
+                                        array_failappend, ragged_basic, ragged_fail, readonly, metadata, baddescr, foreign, datadir]}
 
 
 def run(names, stub_readme=True):
